@@ -112,8 +112,7 @@ theorem C18.failure_keeps_old (t : Nat) (fault : Fault) (fs : FS) (changed : Boo
 and then it touched nothing at all -/
 theorem C18.success_installs_new (t : Nat) (fault : Fault) (fs : FS) (changed : Bool) (lines : List Bytes)
     (h : (autoSave t fault fs changed lines).2 = .ok) :
-    if changed then (autoSave t fault fs changed lines).1 .gr = some (newContent lines) ∨
-                    (autoSave t fault fs changed lines).1 .gr = fs .gr ∧ fs .gr = some (newContent lines)
+    if changed then (autoSave t fault fs changed lines).1 .gr = some (newContent lines)
     else (autoSave t fault fs changed lines).1 = fs := by
   cases changed with
   | false => simp [autoSave]
@@ -121,7 +120,7 @@ theorem C18.success_installs_new (t : Nat) (fault : Fault) (fs : FS) (changed : 
     simp only [if_true]
     rcases autoSave_good t fault fs lines with h' | h'
     · exact absurd h h'.2
-    · exact Or.inl h'.1
+    · exact h'.1
 
 theorem run_frame (t : Nat) (fault : Fault) (n : Name) (hg : n ≠ .gr) (ht : n ≠ .temp t) (ss : List Step) :
     ∀ (fs : FS) (idx : Nat), (run t fault fs idx ss).1 n = fs n := by
